@@ -21,7 +21,7 @@ import re
 from fractions import Fraction
 
 from rkstatic.x_vecexpr import (COMPS, FnView, Formula, Poly, bool_of_stmts, calls_in, commute, flatten, map_terms, poly,
-                                rangearg, show, strip_casts, subst, subst_params, tclean, tkey, unknowns, unroll, vecshape)
+                                rangearg, show, strip_casts, subst, subst_params, tclean, tkey, unknowns, unroll, vecshape, Inliner)
 from rules.C04 import Res, describe_diffs, ret_type, single_return, tdiff
 
 LEVEL = 'other'
@@ -151,6 +151,18 @@ def fam_predicate(res, s, v, spec, what, n=None, expand=False):
         return
     t = all_conv(expand_eq(t))
     g = spec
+    computed = []
+
+    def scan_atoms(x):
+        if x[0] == 'b' and x[1] in ('<', '>', '<=', '>=', '==', '!=') and (calls_in(x[2]) or calls_in(x[3])):
+            computed.append(show(x, s.names))
+        return x
+    map_terms(t, scan_atoms)
+    if computed:
+        # e.g. `clamp(t) == t`: the compared value is itself a function of the bounds, so its order relation to t is not a
+        # free atom; the truth-table form does not apply (the IR identities R-C05-6 decide such a body)
+        res.und(R1, '%s: compares a computed value (%s); not an order atom over bounds and points' % (what, '; '.join(computed[:2])))
+        return
     if expand and isinstance(n, int):
         t, g = expand_L(t, n), expand_L(g, n)
     names = s.names
@@ -910,6 +922,33 @@ def raybox_sign_ordered(res, s, v, tu):
     return True
 
 
+def distributed_slab(sl, bound, org, rdir, names):
+    """recognised-wrong form of a slab distance: `bound*rdir - org*rdir` (the reciprocal direction multiplies the absolute
+    coordinates and the two products are subtracted) where `(bound - org) * rdir` is required.  Equal as real numbers; but
+    rcp_safe(0) is about 1/FLT_MIN, so for a zero direction component both products overflow as soon as |bound|, |org| > 4
+    and inf - inf = NaN removes that axis from the test."""
+    if not (sl[0] == 'b' and sl[1] in ('-', '+')):
+        return None
+
+    def factors(x):
+        return flatten(x, '*')
+    P, Q = sl[2], sl[3]
+    if sl[1] == '+' and Q[0] == 'u' and Q[1] == '-':
+        Q = Q[2]
+    elif sl[1] == '+':
+        return None
+    fp, fq = factors(P), factors(Q)
+    if rdir in fp and rdir in fq and len(fp) == 2 and len(fq) == 2:
+        rp = [x for x in fp if x != rdir] or [rdir]
+        rq = [x for x in fq if x != rdir] or [rdir]
+        if rp[0] == bound and rq[0] == org:
+            return ('slab distance `%s` multiplies the reciprocal direction into the absolute coordinates and subtracts the two '
+                    'products; required `(%s - %s) * rcp_safe(dir)`: for a zero direction component rcp_safe is about 1/FLT_MIN, '
+                    'both products overflow once |coordinate| > 4 and inf - inf = NaN drops the axis from the slab test' % (
+                        show(sl, names), show(bound, names), show(org, names)))
+    return None
+
+
 def fam_raybox(res, s, v, tu=None):
     names = s.names
     t = single_return(v)
@@ -967,6 +1006,11 @@ def fam_raybox(res, s, v, tu=None):
             if len(bs) != 1:
                 undecided = True
                 break
+            dist = distributed_slab(sl, M(box, bs[0]), org, ('call', 'rcp_safe', (dirp,)), names)
+            if dist:
+                seen.add(bs[0])
+                pr.append(dist)
+                continue
             ds = []
             tdiff(sl, want[bs[0]], ds)
             if {d[0] for d in ds} & {'other'} or unknowns(sl):
@@ -1208,78 +1252,6 @@ RULE_OF = {'predicate': R1, 'extend': R2, 'clamp': R2, 'range constructor': R2, 
            'scale/translate': R3, 'area/volume': R3, 'xfmBounds': R4, 'intersectRayBox': R5}
 
 
-class Inliner:
-    """replaces calls of helper functions - functions of the analysed headers that the classifier does not know - by their
-    bodies with the parameters mapped, so that the caller is decided with the helper in place"""
-
-    def __init__(self, tu, f, v, files):
-        self.tu, self.f, self.v, self.files = tu, f, v, files
-        self.used = set()
-
-    def _is_helper(self, g):
-        file = self.tu.fn_file(g)
-        if file not in self.files or g['id'] == self.f['id']:
-            return False
-        fam, fn = classify(self.tu, g, signature(self.tu, g), file)
-        return fam is None
-
-    def lookup(self, name, nargs, member):
-        tu = self.tu
-        for nm, q, node in self.v.callees:
-            if nm == name:
-                g = tu.callee_fn(node)
-                if g is not None and len(g['params']) == nargs and self._is_helper(g):
-                    return g
-        cands = []
-        for g in tu.functions.values():
-            if not g['dep'] or len(g['params']) != nargs or bool(g.get('rec')) != member:
-                continue
-            if member and g.get('rec') != self.f.get('rec'):
-                continue
-            d = tu.node(g['id']) or {}
-            if (d.get('name') or g['q'].split('::')[-1]) == name and self._is_helper(g):
-                cands.append(g)
-        return cands[0] if len(cands) == 1 else None
-
-    def expr(self, t, depth=0):
-        if depth > 3:
-            return t
-
-        def f(x):
-            if x[0] == 'call' and isinstance(x[1], str):
-                g = self.lookup(x[1], len(x[2]), False)
-                if g is not None:
-                    hv = FnView(self.tu, g)
-                    body = bool_of_stmts(list(hv.body()))
-                    if body is not None and not unknowns(body):
-                        self.used.add(g['id'])
-                        self.v.callees.extend(hv.callees)
-                        return self.expr(subst_params(body, x[2]), depth + 1)
-            return x
-        return map_terms(t, f)
-
-    def stmts(self, stmts, depth=0):
-        out = []
-        for st in stmts:
-            if st[0] == 'expr' and st[1][0] == 'mcall' and st[1][2] == THIS and depth < 3:
-                g = self.lookup(st[1][1], len(st[1][3]), True)
-                if g is not None:
-                    hv = FnView(self.tu, g)
-                    hb = [x for x in hv.body() if not (x[0] == 'ret' and x[1] is None)]
-                    if hb and all(x[0] == 'expr' for x in hb) and not unknowns(hb):
-                        self.used.add(g['id'])
-                        self.v.callees.extend(hv.callees)
-                        out.extend(self.stmts([subst_params(x, st[1][3], this=THIS) for x in hb], depth + 1))
-                        continue
-            if st[0] == 'if':
-                out.append(('if', self.expr(st[1]), tuple(self.stmts(list(st[2]), depth)), tuple(self.stmts(list(st[3]), depth))))
-            elif st[0] in ('ret', 'expr') and st[1] is not None:
-                out.append((st[0], self.expr(st[1])))
-            else:
-                out.append(st)
-        return out
-
-
 def analyse(ctx, tu, label=''):
     fams, fams_typed = collections.Counter(), collections.Counter()
     counts = collections.Counter()
@@ -1312,7 +1284,8 @@ def analyse(ctx, tu, label=''):
         v = FnView(tu, f)
         res = Res()
         try:
-            inl = Inliner(tu, f, v, (RANGE_H, BOX_H, AFF_H))
+            inl = Inliner(tu, f, v, lambda g: tu.fn_file(g) in (RANGE_H, BOX_H, AFF_H) and
+                          classify(tu, g, signature(tu, g), tu.fn_file(g))[0] is None)
             v._body = inl.stmts(list(v.body()))
             fn(res, s, v)
         except Exception:
